@@ -20,17 +20,94 @@ def global_failure(s):
                        ite(selected(s, OPT.LIST), s.sync_alerts[OPT.LIST], False))))
 
 
+def alerts_shape(s):
+    return all(o in s.sync_alerts for o in SYNC_OPTIONS)
+
+
+def others_kept(s, o, opt):
+    return alerts_shape(s) and all(implies(x != opt, s.sync_alerts[x] == o.sync_alerts[x]) for x in SYNC_OPTIONS)
+
+
+@contract('statemachine:_OnState._check_strict_failure', props=['C08'])
+class CheckStrictFailure:
+    """None iff STRICT is not selected; else whether the condition is lost, recorded in sync_alerts[STRICT]"""
+    raises = ()
+
+    def pre_shape(self):
+        return alerts_shape(self)
+
+    def modifies(self):
+        return [contents(self.sync_alerts)]
+
+    def post_result(self, result, old):
+        return ((result is None) == (not selected(self, OPT.STRICT))
+                and implies(result is not None, self.sync_alerts[OPT.STRICT] == result)
+                and implies(result is None, self.sync_alerts[OPT.STRICT] == old.self.sync_alerts[OPT.STRICT])
+                and others_kept(self, old.self, OPT.STRICT))
+
+
+@contract('statemachine:_OnState._check_list_failure', props=['C08'])
+class CheckListFailure:
+    raises = ()
+
+    def pre_shape(self):
+        return alerts_shape(self)
+
+    def modifies(self):
+        return [contents(self.sync_alerts)]
+
+    def post_result(self, result, old):
+        return ((result is None) == (not selected(self, OPT.LIST))
+                and implies(result is not None, self.sync_alerts[OPT.LIST] == result)
+                and implies(result is None, self.sync_alerts[OPT.LIST] == old.self.sync_alerts[OPT.LIST])
+                and others_kept(self, old.self, OPT.LIST))
+
+
+@contract('statemachine:_OnState._check_core_failure', props=['C08'])
+class CheckCoreFailure:
+    raises = ()
+
+    def pre_shape(self):
+        return alerts_shape(self)
+
+    def modifies(self):
+        return [contents(self.sync_alerts)]
+
+    def post_result(self, result, old):
+        return ((result is None) == (not selected(self, OPT.CORE))
+                and implies(result is not None, self.sync_alerts[OPT.CORE] == result)
+                and implies(result is None, self.sync_alerts[OPT.CORE] == old.self.sync_alerts[OPT.CORE])
+                and others_kept(self, old.self, OPT.CORE))
+
+
+@contract('statemachine:_OnState._check_user_failure', props=['C08'])
+class CheckUserFailure:
+    """USER: 'at least one Supvisors instance FAILED' since the last evaluation (lost_instances of this next())"""
+    raises = ()
+
+    def pre_shape(self):
+        return alerts_shape(self)
+
+    def modifies(self):
+        return [contents(self.sync_alerts)]
+
+    def post_result(self, result, old):
+        return ((result is None) == (not selected(self, OPT.USER))
+                and implies(result is not None, result == (len(self.lost_instances) > 0)
+                            and self.sync_alerts[OPT.USER] == result)
+                and implies(result is None, self.sync_alerts[OPT.USER] == old.self.sync_alerts[OPT.USER])
+                and others_kept(self, old.self, OPT.USER))
+
+
 @contract('statemachine:_SynchronizedState._check_failure_strategy', props=['C08', 'C02'])
 class CheckFailureStrategy:
     """clause 4 (mechanism 'failure strategies RESYNC / CONTINUE'): CONTINUE never leaves the state; RESYNC goes back to
     SYNCHRONIZATION exactly when a selected condition (by precedence) is lost; TIMEOUT alone never fails"""
     raises = ()
     returns = 'Optional[SupvisorsStates]'
-    variants = ['ElectionState', 'DistributionState', 'OperationState', 'ConciliationState', 'RestartingState',
-                'ShuttingDownState']
 
     def pre_valid(self):
-        return valid_state(self)
+        return valid(self.supvisors) and alerts_shape(self)
 
     def modifies(self):
         return [contents(self.sync_alerts), field(LOCAL(self), 'degraded_mode')]
